@@ -74,8 +74,16 @@ let svg_configure (c : Svg.cfg) (o : string) : Svg.cfg =
   let (k, v) = split_once '=' o in
   match k with
   | "margin" -> Svg.set_margin c (n_of_string v)
-  | "bg" -> Svg.set_background_color c (rgba v)
-  | "fg" -> Svg.set_module_color c (rgba v)
+  | "bg" | "bgv" -> Svg.set_background_color c (rgba v)
+  | "fg" | "fgv" -> Svg.set_module_color c (rgba v)
+  (* a three-component slice is an opaque colour *)
+  | "bgv3" -> Svg.set_background_color c { (rgba v) with Svg.c_a = n_of_int 255 }
+  | "fgv3" -> Svg.set_module_color c { (rgba v) with Svg.c_a = n_of_int 255 }
+  | "ibgv" -> Svg.set_image_background_color c (rgba v)
+  | "shapecv" -> let (s, col) = split_once ':' v in
+    Svg.add_shape_color c (Svg.shape_of_idx (nat_of_int (int_of_string s))) (rgba col)
+  (* fields of the QRCode value other than its modules: rendering does not depend on them *)
+  | "qecl" | "qmask" | "qmode" | "qver" -> c
   | "shape" -> Svg.add_shape c (Svg.shape_of_idx (nat_of_int (int_of_string v)))
   | "shapec" -> let (s, col) = split_once ':' v in
     Svg.add_shape_color c (Svg.shape_of_idx (nat_of_int (int_of_string s))) (rgba col)
